@@ -1142,6 +1142,11 @@ def iteration_queries(rng, case, c, cid, with_lean):
                 (0, 0)
         if malformed and rng.random() < .5:
             end = (ncy + rng.randrange(0, 2), rng.randrange(0, n + 1))
+        if rng.random() < .08:          # negative coordinates are points too
+            start = (rng.randrange(0, ncy + 1), -rng.randrange(1, 4))
+        if rng.random() < .06:
+            end = rng.choice([(-1, rng.randrange(0, n)),
+                              (rng.randrange(0, max(1, ncy)), -1), (-1, -2)])
         if mode == 'all':
             qor = None
             qs = list(range(n))
